@@ -364,18 +364,31 @@ def solve(equations, invocation, verbose=False):
                             print(f"3. Expansion({expr2}, depth={depth}) = {int(e)}")
                         equations.append((symbolic_expr_expansions[(id(expr2), depth)], int(e)))
 
-    # Add equations: Multiple occurrences of the same named axis must have the same expansions
-    symbolic_axis_expansions = {}
+    # Add equations: Multiple occurrences of the same named axis must be repeated the same number of times by the ellipses
+    # that enclose them. (Not: span the same number of dimensions. In "[a b]..." every repetition spans two dimensions,
+    # while the constraint a=(3, 2) or a second occurrence "[a]..." spans one dimension per repetition.)
+    symbolic_axis_repetitions = {}
+
+    def add_axis_repetitions(expr, ellipses):
+        if isinstance(expr, stage1.Axis):
+            for depth, ellipsis in enumerate(ellipses):
+                if (expr.name, depth) not in symbolic_axis_repetitions:
+                    symbolic_axis_repetitions[(expr.name, depth)] = solver.Variable(
+                        f"symbolic_axis_repetitions[{expr.name},{depth}]", f"{expr.name} at depth {depth}"
+                    )
+                equations.append((
+                    solver.Variable(f"symbolic_ellipsis_repetitions[{ellipsis.ellipsis_id},{depth}]", f"{ellipsis} at depth {depth}"),
+                    symbolic_axis_repetitions[(expr.name, depth)],
+                ))
+        elif isinstance(expr, stage1.Ellipsis):
+            add_axis_repetitions(expr.inner, ellipses + [expr])
+        else:
+            for child in expr.children:
+                add_axis_repetitions(child, ellipses)
+
     for root in exprs1 + exprs2:
         if root is not None:
-            for axis in root.nodes():
-                if isinstance(axis, stage1.Axis):
-                    for depth in range(expr_depths[id(axis)] + 1):
-                        if axis.name not in symbolic_axis_expansions:
-                            symbolic_axis_expansions[(axis.name, depth)] = solver.Variable(
-                                f"symbolic_axis_expansions[{axis.name},{depth}]", f"{axis.name} at depth {depth}"
-                            )
-                        equations.append((symbolic_expr_expansions[(id(axis), depth)], symbolic_axis_expansions[(axis.name, depth)]))
+            add_axis_repetitions(root, [])
 
     # Add equations: Ellipses with the same id must be repeated the same number of times
     symbolic_ellipsis_repetitions = {}
